@@ -279,7 +279,7 @@ def step (st : St) (fields : List String) : St × String :=
   | ["cmp", h1, h2] =>
     match getUrl st h1, getUrl st h2 with
     | some u, some v =>
-      (st, encBool (u.beq v) ++ encBool (u.lt v) ++ encBool (u.le v) ++ encBool (u.gt v) ++ encBool (u.ge v))
+      (st, encBool (u.beq v) ++ encBool (u.lt v) ++ encBool (u.le v) ++ encBool (u.gt v) ++ encBool (u.ge v) ++ encBool (eqKey u = eqKey v))
     | _, _ => (st, "!dead")
   | ["rt", b, h] =>
     -- URL(str(u)): re-parse the canonical string in auto-encoding mode
@@ -318,6 +318,8 @@ def step (st : St) (fields : List String) : St × String :=
       (st, (match r with | .ok d => "ok " ++ toString d.length | .error _ => "!M") ++
            " live=" ++ toString w.live.length ++ " freed=" ++ toString w.freed.length)
     | _, _ => (st, "!bad-op")
+  | "cc" :: _ => (st, "ok")      -- cache control: the model is cache-free
+  | "tag" :: _ => (st, "ok")     -- harness annotation
   | ["reset"] => ({ st with urls := #[] }, "ok")
   | _ => (st, "!bad-op")
 
